@@ -73,8 +73,8 @@ def unframeConcat : Nat → Bytes → Option (List Bytes)
     | none => none
     | some (v, rest) => (unframeConcat fuel rest).map (v :: ·)
 
-def lokiPrefix (labels : Bytes) : Bytes := str "{\"streams\":[{\"stream\":" ++ labels ++ str ",\"values\":["
-def lokiSuffix : Bytes := str "]}]}"
+def lokiPrefix (labels : Bytes) : Bytes := lit "{\"streams\":[{\"stream\":" ++ labels ++ lit ",\"values\":["
+def lokiSuffix : Bytes := lit "]}]}"
 
 /-- the entries of a `values` array up to the closing suffix -/
 def lokiEntries : Nat → Bytes → Option (List Bytes)
@@ -202,10 +202,10 @@ def validJSON (p : Bytes) : Bool :=
 
 /-- `{"<op>":{"_index":<one JSON string>}}` -/
 def validAction (op : Bytes) (a : Bytes) : Bool :=
-  match stripPrefix (str "{\"" ++ op ++ str "\":{\"_index\":\"") a with
+  match stripPrefix (lit "{\"" ++ op ++ lit "\":{\"_index\":\"") a with
   | none => false
   | some r => match strBody r with
-    | some r' => r' == str "}}"
+    | some r' => r' == lit "}}"
     | none => false
 
 /-! ### the property oracle, applied to what the implementation produced -/
